@@ -5,8 +5,11 @@ package checks
 import (
 	"context"
 	"encoding/hex"
+	"encoding/json"
 	"errors"
 	"fmt"
+	"net"
+	"net/http"
 	"os"
 	"os/exec"
 	"path/filepath"
@@ -16,6 +19,7 @@ import (
 	"time"
 
 	"github.com/ethereum/go-ethereum/crypto"
+	"github.com/gorilla/websocket"
 	"github.com/vipnode/vipnode/v2/agent"
 	"github.com/vipnode/vipnode/v2/ethnode"
 	"github.com/vipnode/vipnode/v2/internal/verif/vh"
@@ -500,7 +504,7 @@ func init() {
 			if tier == "thorough" {
 				depth, bound = 10, 4
 			}
-			us := []vh.Unit{c20Histories(depth, 0), c20Histories(depth-1, 12*time.Second), c20CLI()}
+			us := []vh.Unit{c20Histories(depth, 0), c20Histories(depth-1, 12*time.Second), c20CLI(), c20BinaryCadence()}
 			for _, sc := range []string{"start-start", "start-start-stop", "stop-vs-tick", "wait-vs-stop", "stop-vs-update", "stop-vs-start"} {
 				us = append(us, c20Race(sc, bound))
 			}
@@ -525,4 +529,119 @@ func (l *lockedBuf) String() string {
 	l.mu.Lock()
 	defer l.mu.Unlock()
 	return l.b.String()
+}
+
+// the agent binary keeps the cadence its --update-interval flag asks for: against a pool the
+// harness serves, `--update-interval=6s` produces keep-alives neither much faster (at most one per
+// full interval elapsed since the process started, plus the one at start-up) nor much slower (the
+// fourth within 100 s - the default of 60 s would need three minutes)
+func c20BinaryCadence() vh.Unit {
+	return vh.Unit{Name: "wire/agent-binary-cadence", Run: func(u *vh.U) {
+		bin := vh.VipnodeBin()
+		if bin == "" {
+			u.R.Infra = "VERIF_VIPNODE_BIN not set"
+			return
+		}
+		dir := vh.Scratch("c20bin-")
+		defer os.RemoveAll(dir)
+		id := vh.Identities()[0]
+		keyfile := filepath.Join(dir, "nodekey")
+		os.WriteFile(keyfile, []byte(hex.EncodeToString(crypto.FromECDSA(id.Key))), 0600)
+		ln, err := net.Listen("tcp", "127.0.0.1:0")
+		if err != nil {
+			u.R.Infra = err.Error()
+			return
+		}
+		defer ln.Close()
+		var mu sync.Mutex
+		var arrivals []time.Time
+		up := websocket.Upgrader{CheckOrigin: func(*http.Request) bool { return true }}
+		srv := &http.Server{Handler: http.HandlerFunc(func(w http.ResponseWriter, r *http.Request) {
+			conn, err := up.Upgrade(w, r, nil)
+			if err != nil {
+				return
+			}
+			defer conn.Close()
+			for {
+				_, data, err := conn.ReadMessage()
+				if err != nil {
+					return
+				}
+				var m struct {
+					ID     json.RawMessage `json:"id"`
+					Method string          `json:"method"`
+				}
+				if json.Unmarshal(data, &m) != nil || m.Method == "" {
+					continue
+				}
+				if m.Method == "vipnode_update" {
+					mu.Lock()
+					arrivals = append(arrivals, time.Now())
+					mu.Unlock()
+				}
+				result := `{}`
+				if m.Method == "vipnode_connect" {
+					result = `{"pool_version":"verif"}`
+				}
+				if conn.WriteMessage(websocket.TextMessage, []byte(fmt.Sprintf(`{"jsonrpc":"2.0","id":%s,"result":%s}`, string(m.ID), result))) != nil {
+					return
+				}
+			}
+		})}
+		go srv.Serve(ln)
+		defer srv.Close()
+		const interval = 6 * time.Second
+		started := time.Now()
+		cmd := exec.Command(bin, "-vv", "agent", "--rpc", "fakenode://"+id.NodeID+"@x", "--nodekey", keyfile, "--update-interval=6s", "ws://"+ln.Addr().String())
+		cmd.Env = append(os.Environ(), "HOME="+dir)
+		cmd.SysProcAttr = &syscall.SysProcAttr{Setpgid: true, Pdeathsig: syscall.SIGKILL}
+		var out lockedBuf
+		cmd.Stdout, cmd.Stderr = &out, &out
+		if err := cmd.Start(); err != nil {
+			u.R.Infra = err.Error()
+			return
+		}
+		exited := make(chan struct{})
+		go func() { cmd.Wait(); close(exited) }()
+		defer func() {
+			syscall.Kill(-cmd.Process.Pid, syscall.SIGKILL)
+			<-exited
+		}()
+		count := func() int {
+			mu.Lock()
+			defer mu.Unlock()
+			return len(arrivals)
+		}
+		deadline := time.Now().Add(100 * time.Second)
+		for count() < 4 && time.Now().Before(deadline) {
+			select {
+			case <-exited:
+				u.Violate("cli/agent-exited", "the agent exited: "+firstN(out.String(), 500), nil)
+				return
+			case <-time.After(100 * time.Millisecond):
+			}
+		}
+		n := count()
+		elapsed := time.Since(started)
+		u.R.Evaluations++
+		u.R.States++
+		u.R.Transitions += int64(n)
+		u.R.Traces++
+		u.Observe(fmt.Sprintf("cadence: 4 keep-alives reached=%v", n >= 4))
+		if n < 4 {
+			u.Violate("cli/keepalives-slower-than-configured", fmt.Sprintf("vipnode agent --update-interval=6s: %d keep-alives in %s (the fourth is due after 18 s)", n, elapsed.Round(time.Second)), nil)
+			return
+		}
+		// let two more intervals pass, then count: never more than one per full interval since the
+		// process was started, plus the one sent at start-up
+		time.Sleep(2 * interval)
+		n = count()
+		elapsed = time.Since(started)
+		max := int(elapsed/interval) + 1
+		u.Observe(fmt.Sprintf("cadence: within bound=%v", n <= max))
+		if n > max {
+			u.Violate("cli/keepalives-faster-than-configured", fmt.Sprintf("vipnode agent --update-interval=6s: %d keep-alives within %s of the process starting, at most %d can be due", n, elapsed.Round(time.Millisecond), max), nil)
+		}
+		u.Sample(fmt.Sprintf("agent binary with --update-interval=6s against a served pool: %d keep-alives in %s", n, elapsed.Round(time.Second)))
+	}}
 }
